@@ -648,6 +648,10 @@ pub fn run(ctx: &Ctx) -> i32 {
     let mut al2 = alpha::flow(2, &[100, 300], Rich::Base);
     al2.extend(extra_letters());
     explore(ctx, &format!("FLOW values {{1,3}} + demands/aux/outputs/large values, depth<={} (in-process)", d + 1), Wide { alphabet: al2, bases: alpha::bases(false), max_add: d + 1, repeat: false }, C17 { cli: false }, shared.clone());
+    {
+        let n = if ctx.quick() { 10 } else { 14 };
+        explore(ctx, &format!("COMBO: complete 12-step buildings, {n} subsystems absent/present"), Layered { slots: alpha::combo_slots(n), bases: alpha::bases(false) }, C17 { cli: false }, shared.clone());
+    }
     explore(ctx, "shipped files + <=1 line (in-process + CLI files)", Wide { alphabet: alpha::seeded_letters(), bases: alpha::shipped_bases(), max_add: if ctx.quick() { 0 } else { 1 }, repeat: false }, C17 { cli: true }, shared.clone());
     finish(
         ctx,
